@@ -350,7 +350,11 @@ func Run(r *mc.Run, cfg *Config) {
 		phase := os.Getenv("VERIF_CHILD_PHASE")
 		var frontier []item
 		readJSON(filepath.Join(base, "frontier."+phase+".json"), &frontier)
-		r.ParallelC(phase, nShards, func(shard, n int) { workerBody(r, cfg, base, phase, frontier, shard, n) }, crashClassifier)
+		shards := nShards
+		if len(frontier) < shards {
+			shards = len(frontier)
+		}
+		r.ParallelC(phase, shards, func(shard, n int) { workerBody(r, cfg, base, phase, frontier, shard, n) }, crashClassifier)
 		mc.Fatal("worker fell through phase %s", phase)
 	}
 
@@ -397,8 +401,12 @@ func Run(r *mc.Run, cfg *Config) {
 			return byItem
 		}
 		writeJSON(filepath.Join(base, "frontier."+phase+".json"), work)
-		r.ParallelC(phase, nShards, func(shard, n int) { workerBody(r, cfg, base, phase, work, shard, n) }, crashClassifier)
-		for s := 0; s < nShards; s++ {
+		shards := nShards
+		if len(work) < shards {
+			shards = len(work) // every worker process costs a start-up; do not start idle ones
+		}
+		r.ParallelC(phase, shards, func(shard, n int) { workerBody(r, cfg, base, phase, work, shard, n) }, crashClassifier)
+		for s := 0; s < shards; s++ {
 			f, err := os.Open(filepath.Join(base, fmt.Sprintf("res.%s.%d.jsonl", phase, s)))
 			if err != nil {
 				continue
